@@ -200,7 +200,7 @@ def run_case(desc, V):
 
 def extra(tier, seed, jobs):
     modules = chgen.build_modules(tier, seed)
-    return chrunner.run_all(modules, jobs, 40 if tier == 'quick' else 90)
+    return chrunner.run_all(modules, jobs, 60 if tier == 'quick' else 120)
 
 
 def replay_special(viol):
